@@ -76,11 +76,12 @@ _FILES_DIR = None
 
 def _files_dir():
     global _FILES_DIR
-    if _FILES_DIR is None or not os.path.isdir(_FILES_DIR):
+    if _FILES_DIR is None or _FILES_DIR[0] != os.getpid() or not os.path.isdir(_FILES_DIR[1]):      # one directory per process
         import atexit
-        _FILES_DIR = tempfile.mkdtemp(prefix='mrm-coll-files-')
-        atexit.register(shutil.rmtree, _FILES_DIR, True)
-    return _FILES_DIR
+        d = tempfile.mkdtemp(prefix='mrm-coll-files-')
+        atexit.register(shutil.rmtree, d, True)
+        _FILES_DIR = (os.getpid(), d)
+    return _FILES_DIR[1]
 
 
 def impl_collection(texts, allow, strict, via='strings', keys=None, page_size=2):
